@@ -1,6 +1,6 @@
 (* C03 — quantification and nested apply equal operate-then-project. *)
 From Coq Require Import List NArith Bool. Import ListNotations.
-From BddVerif Require Import Model.Bdd Model.Apply Model.Ops Proofs.Sem Proofs.Canon Proofs.ApplySem Proofs.ApplyTop Proofs.QuantSem.
+From BddVerif Require Import Model.Bdd Model.Apply Model.Ops Model.Nested Proofs.Sem Proofs.Canon Proofs.ApplySem Proofs.ApplyTop Proofs.QuantSem Proofs.NestedSem.
 Open Scope N_scope.
 
 Theorem C03_var_exists : forall b x, wf b -> x < nvars b ->
@@ -62,3 +62,89 @@ Theorem C03_order_repetition_irrelevant : forall u b vars1 vars2, Canonical b ->
   (forall y, In y vars1 <-> In y vars2) -> project u b vars1 = project u b vars2.
 Proof. exact project_set_ext. Qed.
 Print Assumptions C03_order_repetition_irrelevant.
+
+(* ======================================================================================== *)
+(* The library's nested apply ALGORITHM (Model/Nested.v: outer engine over the two operands, inner engine on
+   the growing result store with a shared task cache, fix_bdd_alignment), not only its input/output behaviour.
+   sok nv G = "G is a hash-consed store": terminals at 0/1, children at smaller indices with larger variables,
+   no redundant test; nodup G = no two equal decision nodes. *)
+
+(* fix_bdd_alignment: the DFS copy from a pointer is canonical and denotes the pointer's function *)
+Theorem C03_nested_engine_fix_alignment : forall nv G p, sok nv G -> nodup G -> p < size G ->
+  exists r, fix_alignment G p = Some r /\ Canonical r /\ nvars r = nvars G /\ forall v, eval r v = sem G p v.
+Proof. exact fix_alignment_correct. Qed.
+Print Assumptions C03_nested_engine_fix_alignment.
+
+(* inner_apply: on two pointers of the store it returns a pointer denoting the pointwise connective, extends the
+   store append-only (old pointers keep their meaning) and preserves the state invariant NInv (store is sok,
+   node cache = store, both task caches sound; OG = any extension-stable promise of the outer cache) *)
+Theorem C03_nested_engine_inner_apply : forall nv inner ibop (OG : list node -> task -> N -> Prop),
+  (forall a b, inner (Some a) (Some b) = Some (ibop a b)) ->
+  (forall x y r, inner x y = Some r -> forall a b, refines a x -> refines b y -> ibop a b = r) ->
+  (forall G l t p, sok nv G -> sok nv (G ++ l) -> OG G t p -> OG (G ++ l) t p) ->
+  forall s l r, NInv nv ibop OG s -> l < size (nn s) -> r < size (nn s) ->
+  exists p s', inner_apply inner l r s = Some (p, s') /\ NInv nv ibop OG s' /\
+    (exists ext, nn s' = nn s ++ ext) /\ p < size (nn s') /\
+    (forall q v, q < size (nn s) -> sem (nn s') q v = sem (nn s) q v) /\
+    forall v, sem (nn s') p v = ibop (sem (nn s) l v) (sem (nn s) r v).
+Proof. exact inner_apply_correct. Qed.
+Print Assumptions C03_nested_engine_inner_apply.
+
+(* nested_apply with an arbitrary trigger predicate; inner table = any consistent table of and (u = true) / or *)
+Theorem C03_nested_engine_fn : forall A B trigger outer inner (u : bool),
+  wf A -> wf B -> nvars A = nvars B -> total2 outer -> consistent2 outer ->
+  builtin_ok inner (if u then andb else orb) ->
+  exists r, nested_apply_fn A B trigger outer inner = Ok r /\ Canonical r /\ wf r /\ nvars r = nvars A /\
+    forall v, eval r v = true <-> qtr trigger u (fun w => bop_of outer (eval A w) (eval B w)) v.
+Proof. exact nested_fn_correct. Qed.
+Print Assumptions C03_nested_engine_fn.
+
+Theorem C03_nested_engine_panic_iff : forall A B trigger outer inner,
+  nested_apply_fn A B trigger outer inner = Panic <-> nvars A <> nvars B.
+Proof. exact nested_fn_panic_iff. Qed.
+Print Assumptions C03_nested_engine_panic_iff.
+
+(* the faithful engine satisfies the statement of C03_nested ... *)
+Theorem C03_nested_engine_correct : forall A B trig outer inner (u : bool),
+  wf A -> wf B -> nvars A = nvars B -> total2 outer -> consistent2 outer ->
+  builtin_ok inner (if u then andb else orb) ->
+  exists r, nested_apply_faithful A B trig outer inner = Ok r /\ Canonical r /\ wf r /\ nvars r = nvars A /\
+    forall v, eval r v = true <-> qspec u (triggered_from 0 trig) (fun w => bop_of outer (eval A w) (eval B w)) v.
+Proof. exact nested_faithful_correct. Qed.
+Print Assumptions C03_nested_engine_correct.
+
+(* ... hence returns the same ARRAY as the compositional model used in the theorems above *)
+Theorem C03_nested_engine_eq_model : forall A B trig outer inner (u : bool),
+  wf A -> wf B -> nvars A = nvars B -> total2 outer -> consistent2 outer ->
+  builtin_ok inner (if u then andb else orb) ->
+  nested_apply_faithful A B trig outer inner = binary_op_nested A B trig outer u.
+Proof. exact nested_faithful_eq_model. Qed.
+Print Assumptions C03_nested_engine_eq_model.
+
+Theorem C03_nested_engine_bin_exists_eq : forall A B op vars,
+  wf A -> wf B -> nvars A = nvars B -> total2 op -> consistent2 op ->
+  binary_op_with_exists_faithful A B op vars = binary_op_with_exists A B op vars.
+Proof. exact binary_op_with_exists_faithful_eq. Qed.
+Print Assumptions C03_nested_engine_bin_exists_eq.
+
+Theorem C03_nested_engine_bin_for_all_eq : forall A B op vars,
+  wf A -> wf B -> nvars A = nvars B -> total2 op -> consistent2 op ->
+  binary_op_with_for_all_faithful A B op vars = binary_op_with_for_all A B op vars.
+Proof. exact binary_op_with_for_all_faithful_eq. Qed.
+Print Assumptions C03_nested_engine_bin_for_all_eq.
+
+Theorem C03_nested_engine_exists_eq : forall b vars, wf b -> bdd_exists_faithful b vars = bdd_exists b vars.
+Proof. exact bdd_exists_faithful_eq. Qed.
+Print Assumptions C03_nested_engine_exists_eq.
+
+Theorem C03_nested_engine_for_all_eq : forall b vars, wf b -> bdd_for_all_faithful b vars = bdd_for_all b vars.
+Proof. exact bdd_for_all_faithful_eq. Qed.
+Print Assumptions C03_nested_engine_for_all_eq.
+
+(* hypotheses are satisfiable on a non-trivial instance: x0 /\ x1 over 3 variables, exists x1 / forall x0 *)
+Example C03_nested_engine_example :
+  nested_apply_faithful [mkNode 3 0 0; mkNode 3 1 1; mkNode 1 0 1; mkNode 0 0 2]
+                        [mkNode 3 0 0; mkNode 3 1 1; mkNode 1 0 1; mkNode 0 0 2] [false; true] op_or op_or
+  = Ok [mkNode 3 0 0; mkNode 3 1 1; mkNode 0 0 1].
+Proof. vm_compute. reflexivity. Qed.
+Print Assumptions C03_nested_engine_example.
